@@ -77,7 +77,10 @@ func mutate(t *rapid.T, text string) (string, string) {
 		switch {
 		case strings.HasPrefix(s, "`") && len(s) >= 2:
 			inner := s[1 : len(s)-1]
-			inner = gen.Pick(t, "badjson", []string{inner + " x", inner + ",", "{" + inner, "[" + inner, inner + "]", "\"" + strings.Trim(inner, "\""), strings.TrimSuffix(inner, "\""), "01", "1.", ".5", "+1", "tru", "nul", "{\"a\":}", "[1,]", "{a:1}", "'a'", "\"\\x\"", "\"\\u12\"", "\"a\nb\"", "", " ", inner + inner})
+			inner = gen.Pick(t, "badjson", []string{inner + " x", inner + ",", "{" + inner, "[" + inner, inner + "]", "\"" + strings.Trim(inner, "\""), strings.TrimSuffix(inner, "\""), "01", "1.", ".5", "+1", "tru", "nul", "{\"a\":}", "[1,]", "{a:1}", "'a'", "\"\\x\"", "\"\\u12\"", "\"a\nb\"", "", " ", inner + inner,
+				// numbers that stop short, or go on, where RFC 8259 wants a digit (and a few that are fine)
+				"1e+", "1E-", "-0.5e-", "10e-", "1e", "1E", "0e", "-0e-", "1.0e", "1.0E+", "-", "-.5", "1.e1", "1e1.5", "--1", "0x1F", "1_000", "1e+ 1", "+1e1", "1.5.2", "00", "-01", "1 2", "Infinity", "NaN", "-Infinity",
+				"[1e+]", "{\"a\":1e-}", "[-]", "[1.]", "[1,-]", "1e+1", "-0e-0", "[1E+1, 2e-0]", inner + "e+", inner + "e", inner + ".", "-" + inner})
 			out[i] = "`" + inner + "`"
 		case strings.HasPrefix(s, "\"") && len(s) >= 2:
 			inner := s[1 : len(s)-1]
